@@ -223,6 +223,14 @@ def check(an: Analysis) -> None:
         w = gs.search([gs.entry], lambda n: n in later, skip_node=lambda n: n in dn, skip_edge=both(normal_only, skipnone))
         if w is not None:
             ob.fail(sen, dn[0].ast, "with disposables present the scope's state/metrics are entered before (or without) entering the disposables", CFG.show_path(w))
+        # a failed enter is rolled back by Disposables.__aenter__ itself (C08.5): the scope must not exit them again
+        exits_in_enter = call_nodes(an, gs, c02.D_EXIT)
+        for d0 in dn:
+            starts = d0.out("exc")
+            if exits_in_enter and starts:
+                w = gs.search(starts, lambda n: n in exits_in_enter)
+                if w is not None:
+                    ob.fail(sen, w[-1].ast, "after a failing Disposables.__aenter__ (which already exited the disposables that had entered) the scope exits the disposables again: entered ones are exited twice, the failing one is exited without having entered", CFG.show_path([d0] + w))
     c02.disposables_exit_attempted(an, ob)
     gsa = an.cfg(sa)
     dxn = call_nodes(an, gsa, c02.D_EXIT)
@@ -255,10 +263,13 @@ def check(an: Analysis) -> None:
             return env
 
         a_state = Abs("State", "object", tag="state")
-        a_iter = Abs("list", "object", tag="iterable")
+        from ..kinds import abs_builtin
+
+        a_iter = Abs("generator", "Generator", "Iterator", "Iterable", "object", tag="one-shot iterable")  # legal for Iterable[State]; no Sequence
+        a_list = abs_builtin("list")
         rets_all = [n for n in gi.nodes if n.kind == "return"]
         yielded_names = {x.id for x in ast.walk(init_.node) if isinstance(x, ast.Name) and di_.origins(x) and "expr" not in di_.origins(x) and _is_entered_value(di_, x, entered)}
-        for label, value in (("None", None), ("a single State", a_state), ("an iterable of states", a_iter)):
+        for label, value in (("None", None), ("a single State", a_state), ("an iterable of states", a_iter), ("a list of states", a_list)):
             sc = Scenario(gi, di_, env_for(value))
             live = [r for r in rets_all if r.id in sc.reach]
             ob.inst(init_, None, f"yielded {label}: {len(live)} reachable return(s)")
